@@ -54,7 +54,7 @@ theorem fit_invariant {α : Type} [RealLike α] {X : Nat → Nat → α} {n : Na
   KauriC09.fitWith_inv hn hmin bs hok
 
 /-- The same for the model's `fit` (any recorded feature draws), under the hypothesis that `findBestSplit` meets
-    its post-condition `FindBestSplitSpec` (decided by the exact differential check of C08/C09, not proved here). -/
+    its post-condition `FindBestSplitSpec` (proved in `Props/C09Spec.lean`: `findBestSplitSpec`, `fitted_tree_limits_unconditional`). -/
 theorem fit_invariant_of_spec {α : Type} [RealLike α] {κ X : Nat → Nat → α} {n : Nat} {p : Params} (hn : 1 ≤ n)
     (hmin : p.minLeaf ≤ n) (hspec : FindBestSplitSpec κ X p) (draws : List (List Nat)) :
     FullInv X p (fit κ X n p draws) :=
